@@ -31,7 +31,7 @@ Task * currentTask();
 void setCurrentTask(Task *);
 uint64_t ticksNow();           // ticks of the calling task
 void setTickBudget(uint64_t);  // exceeding it: LIVENESS record, _exit(3)
-void setTickWatch(bool on);    // count ticks at all (off while the harness itself runs)
+bool setTickWatch(bool on);    // count ticks at all (off while the harness itself runs); returns the previous state
 std::string symbolOf(void const * fn); // demangled-ish ELF symbol for a tick's function
 
 // ---------------------------------------------------------------- scheduler (engine M)
